@@ -16,3 +16,27 @@ fn verif_witness_c14_range_bounds_and_limit() {
     assert!(store.range_query(b"k11", b"k03", 10).unwrap().is_empty());
     assert_eq!(store.range_query(b"k19", b"zzz", 10).unwrap().len(), 1);
 }
+
+/// entries the scan skips (expired but not yet swept) neither end the scan nor count against the limit
+#[test]
+fn verif_witness_c14_skipped_entries_do_not_consume_the_limit() {
+    let store = FeoxStore::builder().enable_ttl(true).build().unwrap();
+    for i in 0..30u32 {
+        let (k, v) = (format!("k{i:02}"), format!("v{i:02}"));
+        if i % 3 == 0 {
+            store.insert_with_ttl(k.as_bytes(), v.as_bytes(), 1).unwrap();
+        } else {
+            store.insert(k.as_bytes(), v.as_bytes()).unwrap();
+        }
+    }
+    std::thread::sleep(std::time::Duration::from_millis(1300));
+    let live: Vec<u32> = (0..30u32).filter(|i| i % 3 != 0).collect();
+    for limit in [1usize, 2, 3, 5, 8, 19, 20, 21, 64] {
+        let r = store.range_query(b"k00", b"k99", limit).unwrap();
+        let want: Vec<(Vec<u8>, Vec<u8>)> = live.iter().take(limit).map(|i| (format!("k{i:02}").into_bytes(), format!("v{i:02}").into_bytes())).collect();
+        assert_eq!(r, want, "limit {limit} with expired entries in range");
+    }
+    let r = store.range_query(b"k04", b"k12", 4).unwrap();
+    let keys: Vec<Vec<u8>> = r.into_iter().map(|(k, _)| k).collect();
+    assert_eq!(keys, vec![b"k04".to_vec(), b"k05".to_vec(), b"k07".to_vec(), b"k08".to_vec()]);
+}
